@@ -42,7 +42,7 @@ def one_fault_run(rep, impl, spec, order, fault, commit, dry=False):
             with open(prj.path(target.path), "wb") as f:
                 f.write("".join(segs_text).encode("utf-8"))
         before = prj.snapshot()
-        nd = spec["date"] + dt.timedelta(days=400)
+        nd = rwgen.avoid_week53(spec["vp"], spec["date"] + dt.timedelta(days=400))
         args = ["update", "--no-fetch", "--date", nd.isoformat()] + spec["flags"] + (["--dry"] if dry else [])
         code, out, logs, exc = prj.run(impl, args)
         after = prj.snapshot()
